@@ -6,6 +6,7 @@ import (
 	"fmt"
 	"math"
 
+	"gitlab.com/gomidi/midi/v2"
 	cp "gitlab.com/gomidi/midi/v2/internal/verifh/concpairs"
 	"gitlab.com/gomidi/midi/v2/internal/verifh/engine"
 	"gitlab.com/gomidi/midi/v2/internal/verifh/refsmf"
@@ -142,41 +143,98 @@ func texts(part, parts int) {
 	for li := part; li < len(ls); li += parts {
 		n := ls[li]
 		for pat := 0; pat < 7; pat++ {
-			p := content(n, pat)
-			for _, tc := range textCtors {
-				ctx.Eval()
-				var m smf.Message
-				var got string
-				var ok bool
-				c := engine.Catch(func() { m = tc.mk(string(p)); ok = tc.get(m, &got) })
-				if c.Panicked {
-					report(c.Sig+":"+tc.name, tc.name, n, m, "panicked: "+c.Value)
-					continue
-				}
-				if !wellFormed(tc.name, n, m, tc.typ, p) {
-					continue
-				}
-				if !ok || got != string(p) {
-					report("accessor:"+tc.name+":"+lenClass(n), tc.name, n, m, fmt.Sprintf("accessor returns ok=%v and %d bytes for a text of %d bytes", ok, len(got), n))
-				}
-				if n >= 128 {
-					ctx.NontrivialN(1)
-				}
-			}
-			if n >= 1 {
-				ctx.Eval()
-				var m smf.Message
-				var got []byte
-				var ok bool
-				c := engine.Catch(func() { m = smf.MetaSequencerData(p); ok = m.GetMetaSeqData(&got) })
-				if c.Panicked {
-					report(c.Sig+":MetaSequencerData", "MetaSequencerData", n, m, "panicked: "+c.Value)
-					continue
-				}
-				if wellFormed("MetaSequencerData", n, m, 0x7F, p) && (!ok || !bytes.Equal(got, p)) {
-					report("accessor:MetaSequencerData:"+lenClass(n), "MetaSequencerData", n, m, fmt.Sprintf("GetMetaSeqData returns ok=%v and %d bytes for %d bytes of data", ok, len(got), n))
-				}
-			}
+			judgePayload(content(n, pat), n)
+		}
+	}
+}
+
+// judgePayload builds every text kind and the sequencer data with p as
+// content and inverts them.
+func judgePayload(p []byte, label interface{}) {
+	n := len(p)
+	for _, tc := range textCtors {
+		ctx.Eval()
+		var m smf.Message
+		var got string
+		var ok bool
+		c := engine.Catch(func() { m = tc.mk(string(p)); ok = tc.get(m, &got) })
+		if c.Panicked {
+			report(c.Sig+":"+tc.name, tc.name, label, m, "panicked: "+c.Value)
+			continue
+		}
+		if !wellFormed(tc.name, label, m, tc.typ, p) {
+			continue
+		}
+		if !ok || got != string(p) {
+			report("accessor:"+tc.name+":"+lenClass(n), tc.name, label, m, fmt.Sprintf("accessor returns ok=%v and %d bytes for a text of %d bytes", ok, len(got), n))
+		}
+		if n >= 128 {
+			ctx.NontrivialN(1)
+		}
+	}
+	if n >= 1 {
+		ctx.Eval()
+		var m smf.Message
+		var got []byte
+		var ok bool
+		c := engine.Catch(func() { m = smf.MetaSequencerData(p); ok = m.GetMetaSeqData(&got) })
+		if c.Panicked {
+			report(c.Sig+":MetaSequencerData", "MetaSequencerData", label, m, "panicked: "+c.Value)
+			return
+		}
+		if wellFormed("MetaSequencerData", label, m, 0x7F, p) && (!ok || !bytes.Equal(got, p)) {
+			report("accessor:MetaSequencerData:"+lenClass(n), "MetaSequencerData", label, m, fmt.Sprintf("GetMetaSeqData returns ok=%v and %d bytes for %d bytes of data", ok, len(got), n))
+		}
+	}
+}
+
+// nested: contents that are themselves complete events - what every meta
+// constructor builds, channel messages, sysex, chunk headers - alone, with a
+// byte in front or behind, cut by one byte, and once more wrapped (a
+// constructor that recognises "an event" in its argument and unwraps it).
+func nested() {
+	var inner [][]byte
+	add := func(b []byte) { inner = append(inner, append([]byte(nil), b...)) }
+	for _, tc := range textCtors {
+		add(tc.mk("A"))
+		add(tc.mk(""))
+		add(tc.mk(string(content(200, 3))))
+	}
+	add(smf.MetaSequencerData([]byte{0x41}))
+	add(smf.MetaSequencerData([]byte{0x00, 0x20, 0x29}))
+	add(smf.MetaSequencerData(content(127, 2)))
+	add(smf.MetaSequencerData(content(128, 2)))
+	add(smf.MetaSequencerData(content(300, 2)))
+	add(smf.MetaTempo(120))
+	add(smf.MetaMeter(3, 4))
+	add(smf.MetaKey(2, true, 2, false))
+	add(smf.MetaSMPTE(1, 2, 3, 4, 5))
+	add(smf.MetaChannel(3))
+	add(smf.MetaPort(2))
+	add(smf.MetaSequenceNo(258))
+	add(smf.EOT)
+	add(smf.MetaUndefined(0x60, []byte{1, 2}))
+	add(midi.NoteOn(1, 60, 100))
+	add(midi.ProgramChange(2, 5))
+	add(midi.SysEx([]byte{0x7E, 0x7F, 0x09, 0x01}))
+	add([]byte{0xF0, 0x05, 0x7E, 0x7F, 0x09, 0x01, 0xF7})
+	add([]byte{0xF7, 0x01, 0xF8})
+	add([]byte("MTrk\x00\x00\x00\x04\x00\xFF\x2F\x00"))
+	add([]byte("MThd\x00\x00\x00\x06\x00\x01\x00\x01\x03\xC0"))
+	n0 := len(inner)
+	for i := 0; i < n0; i++ {
+		// one level more: the sequencer data / text whose content is inner[i]
+		add(smf.MetaSequencerData(inner[i]))
+		add(smf.MetaText(string(inner[i])))
+	}
+	for _, in := range inner {
+		vars := [][]byte{in, append([]byte{0x00}, in...), append(append([]byte(nil), in...), 0x00), append(append([]byte(nil), in...), in...)}
+		if len(in) > 1 {
+			vars = append(vars, in[:len(in)-1], in[1:])
+		}
+		for _, v := range vars {
+			judgePayload(v, "event bytes as content: "+engine.Hex(v[:min(len(v), 24)]))
+			ctx.Add("nested_contents", 1)
 		}
 	}
 }
@@ -293,6 +351,56 @@ func numeric() {
 			}
 		}
 	}
+}
+
+// smpteProduct: the five arguments of the SMPTE offset together (a slip keyed
+// on a combination - rate bits of the hour with a particular minute, second
+// and frame - escapes the one-field sweeps): hours 0..127 (thorough 0..255) x
+// minutes, seconds 0..60 and 255 x frames 0..30 and 255 x fractions.
+func smpteProduct(part, parts int) {
+	hours := 128
+	fr := []int{0, 1, 50, 99, 100, 255}
+	if ctx.Thorough() {
+		hours = 256
+		fr = nil
+		for i := 0; i <= 100; i++ {
+			fr = append(fr, i)
+		}
+		fr = append(fr, 127, 128, 255)
+	}
+	small := func(n int) []int {
+		var l []int
+		for i := 0; i <= n; i++ {
+			l = append(l, i)
+		}
+		return append(l, 255)
+	}
+	mins, secs, frames := small(60), small(60), small(30)
+	var n int64
+	for h := part; h < hours; h += parts {
+		for _, mi := range mins {
+			for _, se := range secs {
+				for _, f := range frames {
+					for _, ff := range fr {
+						n++
+						m := smf.MetaSMPTE(byte(h), byte(mi), byte(se), byte(f), byte(ff))
+						var g [5]uint8
+						ok := m.GetMetaSMPTEOffsetMsg(&g[0], &g[1], &g[2], &g[3], &g[4])
+						if ok && len(m) == 8 && m[0] == 0xFF && m[1] == 0x54 && m[2] == 5 && m[3] == byte(h) && m[4] == byte(mi) && m[5] == byte(se) && m[6] == byte(f) && m[7] == byte(ff) &&
+							g == [5]uint8{byte(h), byte(mi), byte(se), byte(f), byte(ff)} {
+							continue
+						}
+						a := [5]int{h, mi, se, f, ff}
+						if wellFormed("MetaSMPTE", a, m, 0x54, []byte{byte(h), byte(mi), byte(se), byte(f), byte(ff)}) {
+							report("accessor:MetaSMPTE", "MetaSMPTE", a, m, fmt.Sprintf("got %v (accepted: %v)", g, ok))
+						}
+					}
+				}
+			}
+		}
+	}
+	ctx.Evals.Add(n)
+	ctx.Add("smpte_tuples", n)
 }
 
 func timeSigs(part, parts int) {
@@ -460,9 +568,10 @@ func main() {
 	}
 	ctx.Assume("a zero time-signature clock argument is the documented shorthand for 8, each argument on its own; flat/sharp flag not judged for 0 accidentals; tempo payload within 1 of the 24-bit value")
 	ctx.Jobs("texts", 16, func(j int) { texts(j, 16) })
-	ctx.Jobs("numeric", 1, func(int) { numeric(); reuse() })
+	ctx.Jobs("numeric", 1, func(int) { numeric(); reuse(); nested() })
 	ctx.Jobs("huge", 1, func(int) { huge() })
 	ctx.Jobs("timesig", 16, func(j int) { timeSigs(j, 16) })
+	ctx.Jobs("smpte", 16, func(j int) { smpteProduct(j, 16) })
 	ctx.Jobs("keys", 1, func(int) { keys(); nilMasks(); ownership() })
 	ctx.Jobs("tempo", 16, func(j int) { tempos(j, 16) })
 	ctx.Jobs("concurrent", 1, func(int) { cp.Litmus(ctx); cp.Check(ctx, "meta", concCases()) })
